@@ -275,6 +275,57 @@ def run_fonts(report, n, rng):
             return
 
 
+def run_cli_fonts(report, rng):
+    """bitmap fonts built by the real command line (resvg renders the PNGs; the strike size is given by flag or by
+    file): the strike's ppem and the placement must follow the size of the images actually stored"""
+    import io as _io
+
+    from PIL import Image
+
+    from harness import build, e2e
+
+    docs, srcs = e2e.gen_sources(rng, n=2, viewbox=(0, 0, 100, 100))
+    for fmt, res, via in (("cbdt", 64, "flag"), ("sbix", 48, "file"), ("cbdt", 32, "file")):
+        upem, asc, desc = 1000, 800, -200
+        over = dict(color_format=fmt, upem=upem, ascender=asc, descender=desc, width=1000, bitmap_resolution=res)
+        case = dict(kind="e2e", built_by="command line, options by " + via, config=over)
+        try:
+            font, cfg, picos, _ = build.build_cli(over, srcs, via)
+        except Exception as ex:
+            case["error"] = str(ex)[-1500:]
+            report_failure(report, f"cli_font_build_{fmt}", case)
+            return
+        probs = []
+        cmap = font.getBestCmap()
+        for fn, text, cps in srcs:
+            g = cmap.get(cps[0])
+            if fmt == "cbdt":
+                st_, sd = [(a, b) for a, b in zip(font["CBLC"].strikes, font["CBDT"].strikeData) if g in b][0]
+                ppem, img = st_.bitmapSizeTable.ppemX, bytes(sd[g].imageData)
+                top = sd[g].metrics.BearingY
+            else:
+                stl = list(font["sbix"].strikes.values())[0]
+                ppem, img = stl.ppem, bytes(stl.glyphs[g].imageData)
+                top = None
+                bottom = stl.glyphs[g].originOffsetY
+            h = Image.open(_io.BytesIO(img)).size[1]
+            if h != res:
+                probs.append(f"{g}: stored image is {h} px high, bitmap_resolution is {res}")
+            want = round(upem * h / (asc - desc))
+            if ppem != want:
+                probs.append(f"{g}: strike ppem {ppem} != round(upem*height/em) = {want}")
+            if top is not None and abs(top - asc * ppem / upem) > 2.0:
+                probs.append(f"{g}: CBDT BearingY {top} px, the ascender at this ppem is {asc * ppem / upem:.1f} px")
+            if top is None and abs(bottom - desc * ppem / upem) > 2.0:
+                probs.append(f"{g}: sbix originOffsetY {bottom} px, the descender at this ppem is {desc * ppem / upem:.1f} px")
+            report.count(("cli-font", fmt, res, via, fn), True)
+        report.hist("fonts.format", fmt + " via command line")
+        if probs:
+            case["problems"] = probs[:5]
+            report_failure(report, f"cli_font_{fmt}", case)
+            return
+
+
 def main(argv):
     common.setup_env()
     tier = common.tier_from_args(argv)
@@ -290,6 +341,8 @@ def main(argv):
         run(report, 600 if tier == "quick" else 12000)
     if not report.violations:
         run_fonts(report, 8 if tier == "quick" else 160, random.Random(report.seed + 14))
+    if not report.violations:
+        run_cli_fonts(report, random.Random(report.seed + 15))
     if not st["proof_ok"] and not report.violations:
         report.violation("proof", dict(kind="proof", theorem="Props/C14.v", detail=report.notes.get("proof_failure")), found_input=False)
     report.open_obligations = [
